@@ -13,6 +13,7 @@ LEVEL = "proof"
 COQ_FILES = ["Tie/C02_defs.v", "Tie/C02_tie.v", "Props/C02_props.v"]
 PROPS_FILES = ["C02_props.v"]
 TRUSTED_BASE = [
+    "vlib/symex.py (symbolic execution of the translated Python subset on the ast: the translator reads value / outcome trees, so local names, intermediates, helpers and the form of branches do not matter; its assumptions - pure expressions, opaque calls, no aliasing writes, try handlers not modelled - are listed in DESIGN.md 12.7; fail-closed)",
     "py2gallina unit 'complex' (element expressions of complex_multiplication / complex_division / safe_divide / conjugate / modulus / _complex_matrix_multiplication and the call structure of reduce_operator / expand_operator / complex_dot_product / root_sum_of_squares) over an abstract field",
     "torch broadcasting, `[..., i]` indexing, `.sum(dim)`, `unsqueeze(dim)`: the operators act pointwise in space and sum over the coil axis (validated by exact correspondence with the coil axis at every position)",
     "exact arithmetic: float overflow / underflow / rounding are outside the model (an extreme-value sweep against torch's native complex arithmetic is run as support)",
